@@ -59,6 +59,14 @@ def stepUri (toks : List String) : Option String :=
       | .dtlsOverUdp => s!"plan=dtls-over-udp sni={hint}"
       | .tlsOverTcp => s!"plan=tls-over-tcp sni={hint}"
       | .unsupported => "plan=unsupported")
+  -- stuns / turns+tcp to an IP literal with verification on: TLS over TCP with the host as server name, so a
+  -- certificate naming exactly that address verifies (C17.dialPlan says tlsOverTcp for both pairs)
+  | ["URI", "dialverify", sc, pr, _host, _port] =>
+    let sx : C17.SchemeX := match nat! sc with | 1 => .stun | 2 => .stuns | 3 => .turn | 4 => .turns | _ => .unknown
+    let px : C17.ProtoX := match nat! pr with | 1 => .udp | 2 => .tcp | _ => .unknown
+    some (match C17.dialPlan sx px with
+      | .tlsOverTcp => "tls=verified"
+      | _ => "tls=not-tls-over-tcp")
   | ["URI", "join", a, b] => some (showHex (joinHostPort (hex! a) (hex! b)))
   | _ => none
 
